@@ -2,6 +2,7 @@
 import Driver.Common
 import AskarModel.Model.Wql
 import AskarModel.Model.WqlText
+import AskarModel.Model.WqlTextPg
 import AskarModel.Model.Decrypt
 import AskarModel.Generated.Consts
 
@@ -156,8 +157,49 @@ def runExtend (j : Json) : Json :=
       | some (q, n) =>
         Json.mkObj [("base_ws", .str (collapseWs base)), ("suffix", .str (String.ofList (q.drop base.length))), ("nparams", jnat n)]
 
+/-! the Postgres dialect (`Model/WqlTextPg.lean`): `$n` placeholders, ` LIMIT $k OFFSET $k+1` -/
+
+/-- `encode_tag_filter::<PostgresBackend>` with the injected encryptor: `(raw text, final text, args)` -/
+def encodeFilterPg (E : TagCrypto) (f : Query String) (start : Int) : Option (String × Option String × List Bytes) :=
+  match encodeQuery E (tagQuery f) with
+  | (none, _) => none
+  | (some c, args) =>
+    let raw := toksString (render c)
+    some (raw, replaceArgsStrD .postgres raw start, args)
+
+def runEncodePg (j : Json) : Json :=
+  match j.getObjVal? "f" with
+  | .ok fj =>
+    match encodeFilterPg (cryptoOf j) (parseFilter fj) (int! j "start") with
+    | none => Json.mkObj [("none", .bool true)]
+    | some (_, none, _) => jpanic
+    | some (raw, some sql, args) =>
+      Json.mkObj [("sql", .str sql), ("raw", .str raw), ("args", .arr (args.map jhex).toArray)]
+  | .error _ => jerr "bad filter"
+
+/-- the base text always comes with the case (the Postgres constants are not in Generated/Consts.lean): the suffix
+    appended by `extend_query::<PostgresBackend>` and the final parameter count are what is compared -/
+def runExtendPg (j : Json) : Json :=
+  let base := str! j "base"
+  let nparams := nat! j "nparams"
+  let filt : Option (Option (List Char × Nat)) := match getD? j "f" with
+    | none => some none
+    | some fj => match encodeFilterPg (cryptoOf j) (parseFilter fj) ((nparams : Int) + 1) with
+      | none => some none
+      | some (_, none, _) => none
+      | some (_, some sql, args) => some (some (sql.toList, args.length))
+  match filt with
+  | none => jpanic
+  | some filter =>
+    match extendQueryD .postgres base.toList nparams filter (intOpt j "off") (intOpt j "lim") (bool! j "order") (bool! j "desc") with
+    | none => jpanic
+    | some (q, n, _) =>
+      Json.mkObj [("base_ws", .str (collapseWs base)), ("suffix", .str (String.ofList (q.drop base.length))), ("nparams", jnat n)]
+
 def runCase (j : Json) : Json :=
   match str! j "kind" with
+  | "c04s:encode_pg" => runEncodePg j
+  | "c04s:extend_pg" => runExtendPg j
   | "c04s:encode" => runEncode j
   | "c04s:replace" => runReplace j
   | "c04s:decode_tags" => runDecode j
